@@ -8,7 +8,7 @@ import MpVerif.C19.Model
 * `slack <s> <con> <slk>`                 -> `ok`      Range2Slk entry
 * `run`                                   -> `run wellfed=<b> topo=<b> sib=<b> closed=<b> noclash=<b> edges=<n>`
 * `con <cell>` / `var <cell>`             -> `<hex>`   delivered name of a constraint / variable-or-objective cell
-* `dvars <cell>..` / `dcons <cell>..`     -> `belowfree=<b> uncounted=<b>`   hypotheses on a set of delivered cells
+* `dvars <cell>..` / `dcons <cell>..`     -> `belowfree=<b> uncounted=<b> covered=<b>`   hypotheses on a set of delivered cells
 * `sf <hex> <hex> ...`                    -> `<b>`     suffixFreeB
 * `np <mode> <colhex|-|0> <rowhex|-|0> <nv> <ndv> <ncon> <nalg> <nobj> <objno> <multi>`
       -> `none` | `error` | `names V <hex>.. C <hex>.. O <hex>..`   (`-` absent file, `0` empty file)
@@ -88,11 +88,11 @@ def handle (d : DSt) (ws : List String) : DSt × String :=
     | none => (d, "bad-op")
   | "dvars" :: cs =>
     match cs.mapM String.toNat? with
-    | some D => (d, s!"belowfree={b2s (belowFreeB d.R D)} uncounted={b2s (uncountedB d.fin D)}")
+    | some D => (d, s!"belowfree={b2s (belowFreeB d.R D)} uncounted={b2s (uncountedB d.fin D)} covered={b2s (coveredB d.roots d.ops.reverse D)}")
     | none => (d, "bad-op")
   | "dcons" :: cs =>
     match cs.mapM String.toNat? with
-    | some D => (d, s!"belowfree={b2s (belowFreeB d.R D)} uncounted=1")
+    | some D => (d, s!"belowfree={b2s (belowFreeB d.R D)} uncounted=1 covered={b2s (coveredB d.roots d.ops.reverse D)}")
     | none => (d, "bad-op")
   | "sf" :: hs =>
     match hs.mapM fromHex with
